@@ -181,8 +181,21 @@ func checkC18(c *Ctx) Meta {
 
 	// sinks
 	nSinks := 0
+	ordByName := map[string]map[string]int{}
 	for _, fn := range fns {
-		ord := map[string]int{}
+		// a sink in a helper the reference tree does not have is counted with the reference function all its
+		// uses come from (the construct moved, it is still that function's copy): obligation keys — and with
+		// them the known-finding keys — survive an extraction
+		name := FuncName(fn)
+		if gNewFuncs[fn] && fn.Parent() == nil {
+			if o := ownerOfNew(fn, 3); o != nil {
+				name = FuncName(o)
+			}
+		}
+		if ordByName[name] == nil {
+			ordByName[name] = map[string]int{}
+		}
+		ord := ordByName[name]
 		allInstrsShallow(fn, func(in ssa.Instruction) {
 			cl, ok := in.(*ssa.Call)
 			if !ok {
@@ -210,7 +223,7 @@ func checkC18(c *Ctx) Meta {
 			}
 			nSinks++
 			ord[kind]++
-			key := fmt.Sprintf("%s:%s#%d", FuncName(fn), kind, ord[kind])
+			key := fmt.Sprintf("%s:%s#%d", name, kind, ord[kind])
 			// right-alignment idiom: the destination offset (copy) or a preceding pad loop (append) is
 			// computed from len of the very value being copied
 			aligned := false
